@@ -174,13 +174,117 @@ impl<const NV: usize, const NE: usize> Env<NV, NE> {
     }
 }
 
+/// the raw symbolic inputs of an environment (everything `kani::any()` in one place, so that a
+/// counterexample can be recorded and replayed natively from explicit values)
+#[derive(Clone, Copy)]
+pub struct EnvIn<const NV: usize, const NE: usize> {
+    pub src: [usize; NE],
+    pub dst: [usize; NE],
+    pub allowed: [bool; NE],
+    pub cost: [f64; NE],
+    pub heur: [f64; NV],
+    pub forward: bool,
+    pub s: usize,
+    pub t: usize,
+    pub has_target: bool,
+    pub limit: u64,
+}
+
+/// counterexample record: every symbolic input of a harness, as raw 64-bit words, in a fixed order.
+/// the replay tool reads these assignments out of CBMC's trace (lib/replay_loop.py)
+pub static mut CEX: [u64; 128] = [0; 128];
+pub static mut CEX_N: usize = 0;
+pub fn rec(v: u64) {
+    unsafe {
+        if CEX_N < 128 {
+            CEX[CEX_N] = v;
+        }
+        CEX_N += 1;
+    }
+}
+/// reader over a recorded value list (native replay)
+pub struct Vals<'a> {
+    pub v: &'a [u64],
+    pub i: usize,
+}
+impl<'a> Vals<'a> {
+    pub fn next(&mut self) -> u64 {
+        let x = self.v[self.i];
+        self.i += 1;
+        x
+    }
+}
+
+impl<const NV: usize, const NE: usize> EnvIn<NV, NE> {
+    pub fn any() -> Self {
+        EnvIn {
+            src: kani::any(),
+            dst: kani::any(),
+            allowed: kani::any(),
+            cost: kani::any(),
+            heur: kani::any(),
+            forward: kani::any(),
+            s: kani::any(),
+            t: kani::any(),
+            has_target: kani::any(),
+            limit: kani::any(),
+        }
+    }
+    pub fn record(&self) {
+        let mut e = 0;
+        while e < NE {
+            rec(self.src[e] as u64);
+            rec(self.dst[e] as u64);
+            rec(self.allowed[e] as u64);
+            rec(self.cost[e].to_bits());
+            e += 1;
+        }
+        let mut v = 0;
+        while v < NV {
+            rec(self.heur[v].to_bits());
+            v += 1;
+        }
+        rec(self.forward as u64);
+        rec(self.s as u64);
+        rec(self.t as u64);
+        rec(self.has_target as u64);
+        rec(self.limit);
+    }
+    pub fn from_vals(r: &mut Vals) -> Self {
+        let mut x = EnvIn { src: [0; NE], dst: [0; NE], allowed: [false; NE], cost: [0.0; NE], heur: [0.0; NV], forward: true, s: 0, t: 0, has_target: false, limit: 0 };
+        let mut e = 0;
+        while e < NE {
+            x.src[e] = r.next() as usize;
+            x.dst[e] = r.next() as usize;
+            x.allowed[e] = r.next() != 0;
+            x.cost[e] = f64::from_bits(r.next());
+            e += 1;
+        }
+        let mut v = 0;
+        while v < NV {
+            x.heur[v] = f64::from_bits(r.next());
+            v += 1;
+        }
+        x.forward = r.next() != 0;
+        x.s = r.next() as usize;
+        x.t = r.next() as usize;
+        x.has_target = r.next() != 0;
+        x.limit = r.next();
+        x
+    }
+}
+
 /// an arbitrary environment; fills the statics the stubs read; returns the search instance
 pub fn any_env<const NV: usize, const NE: usize>() -> (Env<NV, NE>, SearchInstance) {
+    let x = EnvIn::<NV, NE>::any();
+    x.record();
+    build_env(x)
+}
+
+/// the environment of the given raw inputs (the input constraints are `kani::assume`d here)
+pub fn build_env<const NV: usize, const NE: usize>(x: EnvIn<NV, NE>) -> (Env<NV, NE>, SearchInstance) {
     assert!(NV <= MAXV && NE <= MAXE && NE <= MAXD);
-    let src: [usize; NE] = kani::any();
-    let dst: [usize; NE] = kani::any();
-    let allowed: [bool; NE] = kani::any();
-    let cost: [f64; NE] = kani::any();
+    let EnvIn { src, dst, allowed, cost, heur, forward, s, t, has_target, limit } = x;
     let mut edges: [Edge; NE] = [Edge::default(); NE];
     let mut e = 0;
     while e < NE {
@@ -215,18 +319,13 @@ pub fn any_env<const NV: usize, const NE: usize>() -> (Env<NV, NE>, SearchInstan
         unsafe {
             DEG_OUT[v] = no;
             DEG_IN[v] = ni;
-            let h: f64 = kani::any();
+            let h = heur[v];
             kani::assume(h >= 0.0 && h <= COST_HI);
             HEUR[v] = h;
         }
         v += 1;
     }
-    let forward: bool = kani::any();
-    let s: usize = kani::any();
-    let t: usize = kani::any();
-    let has_target: bool = kani::any();
     kani::assume(s < NV && t < NV);
-    let limit: u64 = kani::any();
     kani::assume(limit <= LIMIT_HI);
     let mut vertices: [Vertex; NV] = [Vertex::new(0, 0.0, 0.0); NV];
     let mut v = 0;
